@@ -409,6 +409,10 @@ def scenario_readers_traced(s, n_readers, calls, timeout, bursts):
             x = collections.deque.pop(self, *a)
             ev.append(("D", me(), x.args[0], x.receiver_seqnr))
             return x
+
+        def clear(self):
+            ev.append(("X", me()))
+            return collections.deque.clear(self)
     old = r._queue
     poke(r, "_queue", LogDeque(old, maxlen=old.maxlen))
     results = {}
@@ -436,6 +440,9 @@ def scenario_readers_traced(s, n_readers, calls, timeout, bursts):
         if at > now:
             dsched.FAKE_TIME.sleep(at - now)
             now = at
+        if cnt == "discard":
+            r.discard_all()
+            continue
         for _ in range(cnt):
             r._receive_signal(QMI_SignalMessage(Addr("c", "p"), Addr("c", "$pubsub"), "sig", (n,)))
             n += 1
@@ -480,6 +487,8 @@ def trace_labels(obs):
                 labels.append("BWake %s" % cnat(rid))
         elif e[0] == "D":
             delivered.append((e[1], e[2], e[3]))
+        elif e[0] == "X":
+            labels.append("BDiscard")
     seqs = [d[2] for d in delivered]
     if any(b <= a for a, b in zip(seqs, seqs[1:])):
         why.append("signals were handed out in the order %r (a signal given twice, or an older one after a newer one)" % (seqs,))
@@ -506,7 +515,10 @@ def run_readers_traced(ck):
     rng = random.Random(ck.seed * 7919 + 17)
     jobs, meta = [], []
     shapes = [(2, 1, None, ((1.0, 2),)), (3, 1, 5.0, ((1.0, 2),)), (2, 2, 5.0, ((1.0, 3), (2.0, 1))),
-              (3, 2, None, ((0.0, 1), (1.0, 4))), (3, 1, 0.5, ((0.5, 2), (1.0, 1))), (2, 2, 0.5, ((0.25, 1), (0.5, 2), (0.75, 1)))]
+              (3, 2, None, ((0.0, 1), (1.0, 4))), (3, 1, 0.5, ((0.5, 2), (1.0, 1))), (2, 2, 0.5, ((0.25, 1), (0.5, 2), (0.75, 1))),
+              # discard_all while readers wait / with signals queued
+              (2, 2, 5.0, ((0.0, 3), (0.0, "discard"), (1.0, 2), (1.0, "discard"), (2.0, 1))),
+              (3, 1, None, ((1.0, 4), (1.0, "discard"), (2.0, 1)))]
     reps = 8 if ck.tier == "quick" else 80
     for sh in shapes:
         for i in range(reps):
@@ -757,7 +769,7 @@ def replay(rep):
         import dsched
         import common
         import qmi.core.pubsub, qmi.core.messaging, qmi.core.task  # noqa
-        sh = (c["shape"][0], c["shape"][1], c["shape"][2], tuple(tuple(b) for b in c["shape"][3]))
+        sh = (c["shape"][0], c["shape"][1], c["shape"][2], tuple(tuple(b) for b in c["shape"][3]))   # (at, count | "discard")
         res = dsched.run_forked([(scenario_readers_traced, sh, dict(strategy="replay", schedule=list(c.get("schedule") or [])))], nproc=1)[0]
         if res["status"] != "ok":
             print(res["status"], str(res.get("trace") or "")[:600])
